@@ -428,10 +428,17 @@ class Program(BlockBase):  # R201
         """
         content = []
         add_comments_includes_directives(content, reader)
-        comments = content != []
         try:
             while True:
-                obj = Program_Unit(reader)
+                try:
+                    obj = Program_Unit(reader)
+                except NoMatchError:
+                    # Found a syntax error for this rule. Now look to match
+                    # (via Main_Program0) with a program containing no program
+                    # statement as this is optional in Fortran. What has been
+                    # matched so far is kept and any program units that follow
+                    # are matched in the usual way.
+                    obj = Main_Program0(reader)
                 if obj:
                     # obj could be None if there are only Comments
                     content.append(obj)
@@ -440,12 +447,6 @@ class Program(BlockBase):  # R201
                 next_line = reader.next()
                 # put the line back in the case where there are more lines
                 reader.put_item(next_line)
-        except NoMatchError:
-            # Found a syntax error for this rule. Now look to match
-            # (via Main_Program0) with a program containing no program
-            # statement as this is optional in Fortran.
-            result = BlockBase.match(Main_Program0, [], None, reader)
-            return result
         except StopIteration:
             # Reader has no more lines.
             pass
